@@ -22,6 +22,9 @@ RULE = ("one chain of objects per case: blueprint b -> b.copy(), b + b2 -> eleme
         "element(pos).changeArg; after the derivations and after every mutation the description of every object and the "
         "forged arrays of every element/sequence are snapshotted; observed on the implementation alone: a mutation changes "
         "no snapshot but the mutated object's; and every snapshot equals the value-semantics model's; "
+        "after the derivations and after every mutation also the reference-level observation: which pairs of objects share "
+        "mutable containers / nested filter dicts / arrays (id() walk of the real objects) equals what the ownership model "
+        "BB.Model.Heap predicts, the model never faults, and only objects the model allows to change did change; "
         "non-trivial = at least 3 accepted mutations")
 ERRCLASS = False
 
@@ -180,7 +183,23 @@ def case(g, tier, ci):
         step += 1
         ops.append({**m, "_mut": m["id"], "_step": step})
         ops += [{**o, "_step": step} for o in snap(watch)]
-    return ops
+    return with_heap_summaries(ops)
+
+
+def with_heap_summaries(ops):
+    """reference-level observation (BB.Model.Heap vs id() of the real objects): after the derivations and after
+    every mutation, which user-held objects share cells, and which of them changed"""
+    names = sorted({o[k] for o in ops for k in ("id", "to") if isinstance(o.get(k), str)})
+    hs = {"op": "heap.summary", "vars": names}
+    out, first = [], True
+    for o in ops:
+        if first and o.get("_snap") is not None:
+            out.append(dict(hs))
+            first = False
+        out.append(o)
+        if o.get("_mut") is not None:
+            out.append(dict(hs))
+    return out
 
 
 def post_check(ops, ri, rm):
